@@ -808,7 +808,9 @@ class DateTime(datetime.datetime, Date):
 
         return self._unit_boundary(unit, f"_end_of_{unit}", 0)
 
-    def _unit_boundary(self, unit: str, method: str, fold: int) -> Self:
+    def _unit_boundary(
+        self, unit: str, method: str | Callable[[Self], Self], fold: int
+    ) -> Self:
         """
         Resolve the first (fold=1) or last (fold=0) wall time of a unit to the
         first or last instant of the unit, whatever fold the instance carries:
@@ -817,10 +819,12 @@ class DateTime(datetime.datetime, Date):
         or later (end) occurrence. Within a repeated period, a second, minute
         or hour stays in the occurrence the instance itself is in.
         """
-        if self.tzinfo is None or isinstance(self.tzinfo, FixedTimezone):
-            return cast("Self", getattr(self, method)())
+        build = getattr(self.__class__, method) if isinstance(method, str) else method
 
-        dt = cast("Self", getattr(self.replace(fold=fold), method)())
+        if self.tzinfo is None or isinstance(self.tzinfo, FixedTimezone):
+            return cast("Self", build(self))
+
+        dt = cast("Self", build(self.replace(fold=fold)))
         other = dt.replace(fold=1 - fold)
         if other.utcoffset() == dt.utcoffset() or other.naive() != dt.naive():
             # Not a repeated wall time
@@ -832,6 +836,14 @@ class DateTime(datetime.datetime, Date):
                 return dt
 
         return other
+
+    def _start_of_date(self, year: int, month: int, day: int) -> Self:
+        """
+        The first instant of the given calendar day in the instance's timezone.
+        """
+        return self._unit_boundary(
+            "day", lambda dt: dt.set(year, month, day, 0, 0, 0, 0), 1
+        )
 
     def _start_of_second(self) -> Self:
         """
@@ -1084,12 +1096,10 @@ class DateTime(datetime.datetime, Date):
         modify to the first day of the month. Use the supplied consts
         to indicate the desired day_of_week, ex. DateTime.MONDAY.
         """
-        dt = self.start_of("day")
-
         if day_of_week is None:
-            return dt.set(day=1).start_of("day")
+            return self._start_of_date(self.year, self.month, 1)
 
-        month = calendar.Calendar().monthdayscalendar(dt.year, dt.month)
+        month = calendar.Calendar().monthdayscalendar(self.year, self.month)
 
         calendar_day = day_of_week
 
@@ -1098,7 +1108,7 @@ class DateTime(datetime.datetime, Date):
         else:
             day_of_month = month[1][calendar_day]
 
-        return dt.set(day=day_of_month).start_of("day")
+        return self._start_of_date(self.year, self.month, day_of_month)
 
     def _last_of_month(self, day_of_week: WeekDay | None = None) -> Self:
         """
@@ -1107,12 +1117,10 @@ class DateTime(datetime.datetime, Date):
         modify to the last day of the month. Use the supplied consts
         to indicate the desired day_of_week, ex. DateTime.MONDAY.
         """
-        dt = self.start_of("day")
-
         if day_of_week is None:
-            return dt.set(day=self.days_in_month).start_of("day")
+            return self._start_of_date(self.year, self.month, self.days_in_month)
 
-        month = calendar.Calendar().monthdayscalendar(dt.year, dt.month)
+        month = calendar.Calendar().monthdayscalendar(self.year, self.month)
 
         calendar_day = day_of_week
 
@@ -1121,7 +1129,7 @@ class DateTime(datetime.datetime, Date):
         else:
             day_of_month = month[-2][calendar_day]
 
-        return dt.set(day=day_of_month).start_of("day")
+        return self._start_of_date(self.year, self.month, day_of_month)
 
     def _nth_of_month(
         self, nth: int, day_of_week: WeekDay | None = None
@@ -1153,10 +1161,8 @@ class DateTime(datetime.datetime, Date):
         modify to the first day of the quarter. Use the supplied consts
         to indicate the desired day_of_week, ex. DateTime.MONDAY.
         """
-        return (
-            self.start_of("day")
-            .on(self.year, self.quarter * 3 - 2, 1)
-            .first_of("month", day_of_week)
+        return self._start_of_date(self.year, self.quarter * 3 - 2, 1).first_of(
+            "month", day_of_week
         )
 
     def _last_of_quarter(self, day_of_week: WeekDay | None = None) -> Self:
@@ -1166,10 +1172,8 @@ class DateTime(datetime.datetime, Date):
         modify to the last day of the quarter. Use the supplied consts
         to indicate the desired day_of_week, ex. DateTime.MONDAY.
         """
-        return (
-            self.start_of("day")
-            .on(self.year, self.quarter * 3, 1)
-            .last_of("month", day_of_week)
+        return self._start_of_date(self.year, self.quarter * 3, 1).last_of(
+            "month", day_of_week
         )
 
     def _nth_of_quarter(
@@ -1185,7 +1189,7 @@ class DateTime(datetime.datetime, Date):
         if nth == 1:
             return self.first_of("quarter", day_of_week)
 
-        dt = self.start_of("day").set(day=1, month=self.quarter * 3)
+        dt = self._start_of_date(self.year, self.quarter * 3, 1)
         last_month = dt.month
         year = dt.year
         dt = dt.first_of("quarter")
@@ -1204,7 +1208,7 @@ class DateTime(datetime.datetime, Date):
         modify to the first day of the year. Use the supplied consts
         to indicate the desired day_of_week, ex. DateTime.MONDAY.
         """
-        return self.start_of("day").set(month=1).first_of("month", day_of_week)
+        return self._start_of_date(self.year, 1, 1).first_of("month", day_of_week)
 
     def _last_of_year(self, day_of_week: WeekDay | None = None) -> Self:
         """
@@ -1213,10 +1217,8 @@ class DateTime(datetime.datetime, Date):
         modify to the last day of the year. Use the supplied consts
         to indicate the desired day_of_week, ex. DateTime.MONDAY.
         """
-        return (
-            self.start_of("day")
-            .set(month=MONTHS_PER_YEAR)
-            .last_of("month", day_of_week)
+        return self._start_of_date(self.year, MONTHS_PER_YEAR, 1).last_of(
+            "month", day_of_week
         )
 
     def _nth_of_year(self, nth: int, day_of_week: WeekDay | None = None) -> Self | None:
